@@ -456,7 +456,8 @@ impl Runner {
             return;
         }
         l.evals += 1;
-        if l.evals & 255 == 0 {
+        if l.evals & 255 == 0 || rec.buf.len() >= 2048 {
+            // (big cases are slow: let each of them count as progress for the stall monitor)
             PROGRESS.fetch_add(1, Ordering::Relaxed);
         }
         if nontrivial {
@@ -702,7 +703,7 @@ impl Runner {
         let mut best = v;
         // records that are not buffers judged in-process are not shrunk (programs,
         // build combinations) or only briefly (each attempt spawns processes)
-        if matches!(&*best.rec.sub, "compile" | "lattice" | "build" | "race" | "variant-crash" | "crash" | "cachegrind" | "memcheck-hang") {
+        if matches!(&*best.rec.sub, "compile" | "lattice" | "build" | "race" | "variant-crash" | "crash" | "cachegrind" | "cachegrind-hang" | "memcheck-hang") {
             return best;
         }
         let mut budget = if &*best.rec.sub == "variant-pair" { 250usize } else if &*best.rec.sub == "memcheck" { 40usize } else { 3000usize };
